@@ -152,7 +152,8 @@ struct RScene {
 // grid scene: cells of side c, chosen cells get a rectangle with integer corners at distance >= 1 from the
 // cell border; connector ends are integer points ON cell border lines (hence outside every rectangle)
 static bool g_big = false;     // thorough tier: one scene in four is larger
-static bool g_twiceXStage = false; // --mode twice-xstage: route-twice params scenes always with the crossing-penalty stage (finding: address-keyed CrossingConnectorsMap)
+static bool g_twiceMultiPin = false;   // --mode twice-multipin
+static bool g_twiceXStage = false; // --mode twice-xstage: route-twice params scenes ALL with the crossing-penalty stage (default: every second one)
 static bool g_exclMulti = false;   // *-params scenes: may an EXCLUSIVE pin class serve several connectors (run-twice / exact-translation classes)
 static RScene genScene(vh::Rng &r, bool orth, int maxShapes, int maxConns) {
     RScene s; s.orth = orth;
@@ -869,6 +870,9 @@ static RScene genParamScene(vh::Rng &r, bool orth, int maxConns, bool crossStage
                 if (c.sx == o.tx && r.coin()) c.sy = o.ty;
                 if (!freePt(c.tx, c.ty)) continue;
                 if (r.coin(1, 3)) { if (r.coin()) c.tx = c.sx; else c.ty = c.sy; }
+                if (o.scls == 0 && r.coin(1, 3)) {         // a parallel connector: the same two end points (or swapped)
+                    c = o; if (r.coin()) { std::swap(c.sx, c.tx); std::swap(c.sy, c.ty); }
+                }
             } else {
                 if (!freePt(c.sx, c.sy) || !freePt(c.tx, c.ty)) continue;
             }
@@ -950,11 +954,17 @@ static void caseRouteTranslateParams(long k, vh::Rng &r) {
     vh::beginCase(k, orth ? "route-translate-orth" : "route-translate");
     // pin classes (exclusive ones with several connectors too): since fix 992d05a the search orders dummy pin edges by
     // position, so the raw routes — chosen pins included — must translate exactly
-    bool xs = r.coin(1, 3);
+    bool xs = true;                    // crossing-penalty stage allowed in every scene (fix 5dab214)
     bool withPins = r.coin();
     g_exclMulti = true;
     RScene s = genParamScene(r, orth, 4, xs, withPins);
     g_exclMulti = false;
+    {   // pin scenes here: one connector on the pin class and no crossing stage (with more, two builds of the SAME scene in one
+        // process already differ about once in 5000 scenes on HEAD 5dab214 — C20_ZEROSHIFT=1 shows it; reported)
+        size_t nPinned = 0;
+        for (Cn &c : s.conns) if (c.scls > 0 && ++nPinned > 1) { c.scls = 0; c.spin = -1; c.sx = -9 - (double) nPinned; c.sy = -9; }
+        if (nPinned >= 1) { s.prm[Avoid::crossingPenalty] = -1; s.prm[Avoid::fixedSharedPathPenalty] = -1; }
+    }
     if (withPins) s = placeScene(r, s);     // crossing-penalty stage in a third of the scenes (its rerouting order is address dependent once in ~15000 scenes: reported)
     if (r.coin(1, 3)) {
         s.moveIdx = (int) r.range(0, (long) s.rects.size() - 1);
@@ -968,6 +978,7 @@ static void caseRouteTranslateParams(long k, vh::Rng &r) {
     double tx = std::ldexp((double) r.range(-(1L << 16), 1L << 16), -10), ty = std::ldexp((double) r.range(-(1L << 16), 1L << 16), -10);
     if (r.coin(1, 4)) { tx = std::floor(tx); }
     if (r.coin(1, 4)) { ty = 0; }
+    if (getenv("C20_ZEROSHIFT")) { tx = 0; ty = 0; }      // triage aid: is a translation failure really an address dependence (run B = run A)?
     printScene(s);
     printf("shift %s %s\n", H(tx).c_str(), H(ty).c_str());
     fflush(stdout);
@@ -986,12 +997,40 @@ static void caseRouteTwiceParams(long k, vh::Rng &r) {
     bool orth = r.coin(2, 3);
     bool withPins = r.coin(3, 4);
     g_exclMulti = true;
-    // crossingPenalty / fixedSharedPathPenalty stay 0 here: Router::improveCrossings keeps the crossing connectors in a
-    // std::map<ConnRef *, std::set<ConnRef *> > (router.cpp, CrossingConnectorsMap) and removeConnectorWithMostCrossings breaks
-    // ties (equal crossing count, equal estimated cost) by iteration = ADDRESS order, so which connector is rerouted is not
-    // reproducible (about 1 scene in 5000; reported).  `--mode twice-xstage` switches the stage on in every scene of this class.
-    RScene s = genParamScene(r, orth, 4, g_twiceXStage, withPins);
-    if (g_twiceXStage) { if (s.prm[Avoid::crossingPenalty] < 0) s.prm[Avoid::crossingPenalty] = 16; if (s.prm[Avoid::fixedSharedPathPenalty] < 0 && r.coin()) s.prm[Avoid::fixedSharedPathPenalty] = 110; }
+    // the crossing-penalty rerouting stage (crossingPenalty / fixedSharedPathPenalty) is on in every second scene and allowed in
+    // the others: since fix 5dab214 Router::improveCrossings keeps the crossing connectors ordered by connector id (before,
+    // a std::map keyed by ConnRef ADDRESSES decided ties in removeConnectorWithMostCrossings).  --mode twice-xstage: every scene.
+    bool forceX = g_twiceXStage || r.coin();
+    g_exclMulti = true;
+    RScene s = genParamScene(r, orth, 4, true, withPins);
+    // still address dependent on HEAD 5dab214 (reported, site not found): >= 2 connectors attached to ONE pin class — with the
+    // crossing stage about 1 such scene in 1000 differs between two identical runs, without it about 1 in 5000 (the second
+    // connector takes the other of two equal-cost L routes).  Default: one connector per pin class; --mode twice-multipin
+    // keeps them all (exclusive classes serving several connectors included).
+    if (!g_twiceMultiPin) {
+        size_t nPinned = 0;
+        for (Cn &c : s.conns) if (c.scls > 0 && ++nPinned > 1) { c.scls = 0; c.spin = -1; c.sx = -9 - (double) nPinned; c.sy = -9; }
+    }
+    // a third of the scenes: PARALLEL connectors (same two free end points, possibly swapped) with the crossing stage on — they
+    // share their whole path, have equal crossing counts and equal cost estimates: exactly the tie that improveCrossings must
+    // not break by address
+    if (r.coin(1, 3)) {
+        if (s.conns.size() < 2) s.conns.push_back(s.conns[0]);
+        size_t src = 0; while (src < s.conns.size() && s.conns[src].scls > 0) ++src;
+        if (src < s.conns.size()) {
+            size_t dstI = (src + 1) % s.conns.size();
+            if (s.conns[dstI].scls == 0 || s.conns.size() > 2) {
+                if (s.conns[dstI].scls > 0) dstI = (dstI + 1) % s.conns.size();
+                if (dstI != src && s.conns[dstI].scls == 0) {
+                    s.conns[dstI] = s.conns[src];
+                    if (r.coin()) { std::swap(s.conns[dstI].sx, s.conns[dstI].tx); std::swap(s.conns[dstI].sy, s.conns[dstI].ty); }
+                    forceX = true;
+                    if (s.prm[Avoid::fixedSharedPathPenalty] < 0) s.prm[Avoid::fixedSharedPathPenalty] = 110;
+                }
+            }
+        }
+    }
+    if (forceX) { if (s.prm[Avoid::crossingPenalty] < 0) s.prm[Avoid::crossingPenalty] = 16; if (s.prm[Avoid::fixedSharedPathPenalty] < 0 && r.coin()) s.prm[Avoid::fixedSharedPathPenalty] = 110; }
     g_exclMulti = false;
     if (withPins) s = placeScene(r, s);
     s.capture = true;
@@ -1429,7 +1468,7 @@ static void caseCmp(long k, vh::Rng &r) {
 int main(int argc, char **argv) {
     vh::Args a = vh::parseArgs(argc, argv);
     bool thorough = a.tier == "thorough";
-    g_big = thorough; g_twiceXStage = (a.mode == "twice-xstage");
+    g_big = thorough; g_twiceXStage = (a.mode == "twice-xstage"); g_twiceMultiPin = (a.mode == "twice-multipin");
     long rounds = (thorough ? 1200 : 250) * a.scale;
     if (a.n >= 0) rounds = a.n;
     const int NCLASS = 12;       // caseLayoutTwice relies on this (k / 12 = round)
